@@ -66,6 +66,11 @@ type Ghost struct {
 	Tags    []string
 }
 
+type GuardDecl struct {
+	Pkg, Type, Field, Mutex string
+	Tags                    []string
+}
+
 type Lemma struct {
 	Name string
 	Tags []string
@@ -95,6 +100,7 @@ type SpecLib struct {
 	Schemas   []*Contract
 	Immutable [][2]string
 	Dispatch  map[string]string
+	Guarded   []GuardDecl
 	Assumes   []string // scan result: every assumed item, for the evidence file
 }
 
@@ -127,7 +133,7 @@ func splitTags(s string) ([]string, string) {
 }
 
 var clauseKinds = map[string]bool{"requires": true, "ensures": true, "invariant": true, "modifies": true, "sets": true,
-	"havoc": true, "decreases": true, "flags": true, "results": true, "assert": true, "cases": true, "exempt": true}
+	"havoc": true, "decreases": true, "flags": true, "results": true, "assert": true, "cases": true, "exempt": true, "check": true}
 
 // splitTopLevelArgs splits "a S1, b S2" respecting parentheses.
 func splitTop(s string, sep byte) []string {
@@ -286,6 +292,19 @@ func (lib *SpecLib) parseLines(lines []rawLine, pkgPath string, isSpec bool) err
 			}
 			lib.Dispatch[strings.TrimSpace(parts[0])] = strings.TrimSpace(parts[1])
 			lib.Assumes = append(lib.Assumes, "values of interface "+strings.TrimSpace(parts[0])+" are "+strings.TrimSpace(parts[1])+" (only implementation in /repo besides generated mocks)")
+		case word == "guarded":
+			// guarded T.f, T.g by mu : fields of T that may only be read holding T.mu (read or write) and written holding it for writing
+			parts := strings.Split(rest, " by ")
+			if len(parts) != 2 {
+				return fail("guarded T.f, T.g by mu")
+			}
+			for _, f := range splitTop(parts[0], ',') {
+				tf := strings.SplitN(f, ".", 2)
+				if len(tf) != 2 {
+					return fail("guarded needs Type.field")
+				}
+				lib.Guarded = append(lib.Guarded, GuardDecl{Pkg: pkgPath, Type: tf[0], Field: tf[1], Mutex: strings.TrimSpace(parts[1]), Tags: tags})
+			}
 		case word == "immutable":
 			// immutable T.field, T.field2: fields written only when the object is built
 			if err := finishClause(); err != nil {
@@ -514,6 +533,10 @@ func parseClause(c *Clause) error {
 		for _, n := range splitTop(text, ',') {
 			c.Names = append(c.Names, n)
 		}
+		return nil
+	case "check":
+		// check <discipline>: the function is verified for an engine-level discipline (e.g. "check locks")
+		c.Names = strings.Fields(text)
 		return nil
 	case "exempt":
 		// exempt <schema clause label>: <reason>   (the schema clause of that label is not claimed for this function)
